@@ -276,12 +276,22 @@ func (q *sreq) render(rng *rand.Rand) []byte {
 	ver := "HTTP/" + q.Version
 	if q.Version == "garbage" {
 		ver = garbageVersions[q.VerForm%len(garbageVersions)]
+	} else if forms, ok := versionForms[q.Version]; ok {
+		ver = "HTTP/" + forms[q.VerForm%len(forms)]
 	}
 	eol := "\r\n"
 	if rng.Intn(4) == 0 {
 		eol = "\n"
 	}
 	return []byte(q.Method + " /chat?x=1 " + ver + eol + strings.Join(lines, eol) + eol + eol)
+}
+
+// other numerals of the same class: a later 1.x, another major version, an earlier one (numbers
+// around the widths a narrower integer would wrap at)
+var versionForms = map[string][]string{
+	"1.2": {"1.2", "1.9", "1.10", "1.255", "1.256", "1.257", "1.512", "1.65536", "1.65537", "1.4294967296", "1.4294967297"},
+	"2.0": {"2.0", "2.1", "10.1", "256.1", "257.1", "513.1", "65537.1", "4294967297.1", "257.257", "3.0"},
+	"0.9": {"0.9", "0.257", "0.513", "0.65537", "256.0", "1.0"},
 }
 
 // spellings that are not an HTTP-version (RFC 7230 2.6: "HTTP/" DIGIT "." DIGIT), among them the
